@@ -684,6 +684,17 @@ _C19 = [
      'translator': 'py2lean_c19', 'ext': 'py2lean_c19', 'gen_file': 'jsonutils_lines_text',
      'c19': {'file': {'param': 'file_obj', 'data': 'file_data', 'pos': 'file_pos'}, 'truthy_params': ['encoding'],
              'codec': 'utf-8'}},
+    # round 3f: JSONLIterator.next on a BINARY file: the stored line iterator `self._line_iter` is the list of the lines it still
+    # yields (bytes), `self.ignore_errors` a bool; `json.loads` is the instance [PyRtC19.JsonLoads β γ] (a pure function of the
+    # line: what the hand model's `parse` assumes); the result is (the object, the lines left)
+    {'module': 'boltons.jsonutils', 'qualname': 'JSONLIterator.next', 'lean_name': 'JSONLIterator_next',
+     'params': {'line_iter': 'List (List β)', 'ignore_errors': 'Bool'},
+     'tparams': ['β', 'γ'], 'deceq': ['β'], 'inhabited': ['γ'], 'classes': ['PyRtC19.Byte β', 'PyRtC19.JsonLoads β γ'],
+     'kind': 'function', 'result': 'γ × List (List β)', 'raises': True, 'loop_fuel': True,
+     'tie_theorem': 'C19.src_jsonl_next_eq_model',
+     'translator': 'py2lean_c19', 'ext': 'py2lean_c19', 'gen_file': 'jsonutils_jsonl',
+     'c19': {'jsonl': {'iter_attr': '_line_iter', 'iter_param': 'line_iter', 'flags': {'ignore_errors': 'ignore_errors'},
+                       'loads': 'json.loads', 'line_kind': 'bytes'}}},
 ]
 SPECS['C19'] = _C19
 # boltons.setutils.IndexedSet (round 3d, C11): the tombstone / dead-interval bookkeeping, translated by
